@@ -138,8 +138,9 @@ def receiver_field(argtree):
     for _ in range(12):
         t = peel(t)
         if t[0] == 'field':
-            if not t[2].isdigit():
+            if not t[2].isdigit() and not (len(t) > 3 and str(t[3]).split('<')[0].endswith('::boxed::LocalBox')):
                 return t[2]
+            # (tuple position, or the raw pointer inside the crate's own box type = what `&mut *the_box` derefs to)
             t = t[1]
             continue
         if t[0] == 'index':
@@ -384,12 +385,26 @@ def call_outcomes(f, path, decs, callee):
 def capture_trees(P, g):
     """trees (in the parent's body) of the values captured by closure g, by capture position"""
     par = P.fns.get(g.parent) if g.parent else None
-    if par is None:
-        return None, []
-    for (b, i, ck) in par.closures_created():
-        if ck == g.key:
-            st = par.stmts(b)[i]
-            return par, [par.expr_operand(o, b, i) for o in st['r']['ops']]
+    for h in ([par] if par is not None else []):
+        for (b, i, ck) in h.closures_created():
+            if ck == g.key:
+                st = h.stmts(b)[i]
+                return h, [h.expr_operand(o, b, i) for o in st['r']['ops']]
+    # the function the closure was written in was spliced into its callers: the aggregate is built there now
+    idx = getattr(P, '_closure_creators', None)
+    if idx is None:
+        idx = {}
+        for h in P.fn_list:
+            if h.kind == 'promoted':
+                continue
+            for (b, i, ck) in h.closures_created():
+                idx.setdefault(ck, []).append((h, b, i))
+        P._closure_creators = idx
+    sites = [x for x in idx.get(g.key, []) if x[0] is not par]
+    if len(sites) == 1:
+        h, b, i = sites[0]
+        st = h.stmts(b)[i]
+        return h, [h.expr_operand(o, b, i) for o in st['r']['ops']]
     return par, []
 
 
@@ -412,6 +427,76 @@ def resolve_captures(P, g, tree):
                 return caps[int(t[2])]
         return tuple(rec(x) if isinstance(x, tuple) else x for x in t)
     return rec(tree)
+
+
+def forced_some(P, tree):
+    """if the value is the payload of an Option/Result obtained by an extraction that cannot continue on the empty case
+    (`unwrap`, `expect`, `unwrap_or_else(|| <diverges>)`), the tree of that Option; else None.  `let Some(x) = o else { panic!() }`
+    and `o.unwrap_or_else(|| panic!())` establish the same fact: past this point `o` was Some."""
+    t = peel(tree)
+    if t[0] != 'call' or not t[2]:
+        return None
+    m = t[1].split('::')[-1]
+    if not (t[1].startswith('std::option::Option::') or t[1].startswith('std::result::Result::')):
+        return None
+    if m in ('unwrap', 'expect'):
+        return peel(t[2][0])
+    if m == 'unwrap_or_else' and len(t[2]) == 2:
+        c = peel(t[2][1])
+        g = None
+        if c[0] == 'agg' and str(c[1]).startswith('closure:'):
+            g = P.fns.get(c[1][len('closure:'):])
+        elif c[0] == 'fnitem':
+            g = P.fns.get(c[1])
+        if g is not None and not g.return_blocks():
+            return peel(t[2][0])
+    return None
+
+
+def captured_borrow_writes(P, f, b, i, st):
+    """`st` (statement i of block b of f) takes `&mut place`; if that reference is used only as a capture of a closure built in f
+    (`opt.map(|x| { self.count -= ..; x })`), return the stores the closure makes through the capture as
+    [(closure fn, block, index, value tree with the captures substituted by f's trees)], else None"""
+    if st['p']['pr']:
+        return None
+    l = st['p']['l']
+    uses = []
+    for bb in sorted(f.reachable()):
+        for j, s2 in enumerate(f.stmts(bb)):
+            if s2['k'] == 'assign' and not (bb == b and j == i):
+                r = s2['r']
+                ops = ([r['o']] if r.get('o') else []) + [r[x] for x in ('a', 'b') if isinstance(r.get(x), dict)] + list(r.get('ops', []))
+                for k, op in enumerate(ops):
+                    if isinstance(op, dict) and op.get('k') in ('copy', 'move') and op['p']['l'] == l:
+                        uses.append((bb, j, s2, k))
+                if r['k'] in ('ref', 'rawptr') and r['p']['l'] == l:
+                    uses.append((bb, j, s2, None))
+        t = f.term(bb)
+        if t['k'] == 'call' and any(a.get('k') in ('copy', 'move') and a['p']['l'] == l for a in t['args']):
+            return None
+    if len(uses) != 1:
+        return None
+    bb, j, s2, k = uses[0]
+    r = s2['r']
+    if k is None or r['k'] != 'agg' or not str(r.get('def') or r.get('adt') or r.get('ak') or '').strip():
+        return None
+    ck = None
+    for (cb, ci, key) in f.closures_created():
+        if cb == bb and ci == j:
+            ck = key
+    g = P.fns.get(ck) if ck else None
+    if g is None:
+        return None
+    out = []
+    for b2 in sorted(g.reachable()):
+        for i2, s3 in enumerate(g.stmts(b2)):
+            if s3['k'] != 'assign' or not s3['p']['pr'] or s3['p']['pr'][-1]['k'] != 'deref':
+                continue
+            dest = peel_c(g.expr_place({'l': s3['p']['l'], 'pr': s3['p']['pr'][:-1]}, b2, i2))
+            base = peel_c(dest[1]) if dest[0] == 'field' else None
+            if base is not None and str(dest[2]).isdigit() and int(dest[2]) == k and base[0] == 'arg' and base[1] == 1:
+                out.append((g, b2, i2, resolve_captures(P, g, g.expr_rvalue(s3['r'], b2, i2))))
+    return out
 
 
 # ---------------------------------------------------------------- item provenance of per-element calls
@@ -464,7 +549,43 @@ def loop_exits_only_on_exhaustion(f, h):
     return n >= 1
 
 
+def forwarders_of(P, name, depth=2):
+    """`name` plus the local functions that only forward to it: exactly one call to a local function in the body, that call is to
+    `name` (or a forwarder), is made on every path to return, and receives the function's own parameters in order (conversions
+    such as Into::into allowed).  Typical case: a trait impl `fn add(&mut self, e, t) { self.add_event(e, t) }`."""
+    names = {name}
+    for _ in range(depth):
+        grew = False
+        for g in P.fn_list:
+            if g.key in names or g.kind in ('closure', 'promoted') or len(g.blocks) > 12:
+                continue
+            local = [s for s in g.calls() if s.name in P.fns or (s.callee in P.fns)]
+            if len(local) != 1 or not (local[0].names() & names):
+                continue
+            s = local[0]
+            if g.loops_containing(s.b) or not g.postdominates_entry(s.b) or len(s.args) != g.argc:
+                continue
+            ok = True
+            for i, a in enumerate(s.args):
+                t = peel(g.expr_operand(a, s.b, 'T'))
+                while t[0] == 'call' and t[1].split('::')[-1] in ('into', 'from') and len(t[2]) == 1:
+                    t = peel(t[2][0])
+                if not (t[0] == 'arg' and t[1] == i + 1):
+                    ok = False
+            if ok:
+                names.add(g.key)
+                grew = True
+        if not grew:
+            break
+    return names
+
+
 def per_item_calls(P, f, callee_name):
+    if isinstance(callee_name, (set, frozenset)):
+        out = []
+        for n in sorted(callee_name):
+            out.extend(per_item_calls(P, f, n))
+        return out
     """calls to `callee_name` made once per element of an iteration in f: either in a loop of f with operands taken from
     Iterator::next, or through an order-keeping consumer (for_each/try_for_each/fold) given a closure that makes the call, or
     given the callee itself as a function item.  Returns ItemCall objects: iterator tree in f's frame with into_iter/by_ref
